@@ -29,7 +29,7 @@ ObsVerdict(want, obs) ==
 SetEq(a, b) == (\A i \in 1..Len(a) : Member(b, a[i])) /\ (\A i \in 1..Len(b) : Member(a, b[i]))
 St(r) == [mutable |-> r.mutable, cache |-> r.cache, recache |-> r.recache, hasMap |-> r.hasMap]
 IsHierRoute(route) == route \in {"ih_copy", "ih_pickle", "ih_level_add", "ih_roll", "ih_iloc", "ih_drop_iloc"}
-IsHierCtor(route) == route \in {"ih_from_labels", "ih_from_type_blocks", "ih_from_frame_set_index", "ih_from_tree", "ih_from_index_items", "ih_from_index_items_shared", "ih_from_product", "ih_from_product_dup_level"}
+IsHierCtor(route) == route \in {"ih_from_labels", "ih_from_labels_delimited", "ih_from_type_blocks", "ih_from_frame_set_index", "ih_from_tree", "ih_from_index_items", "ih_from_index_items_shared", "ih_from_product", "ih_from_product_dup_level"}
 RowsOf(labels) == [i \in 1..Len(labels) |-> labels[i][2]]
 Verdict(ev) ==
   CASE ev.kind = "construct" ->
